@@ -1,0 +1,16 @@
+//go:build verif
+
+// Machine-checked contracts for govc (see /verif/DESIGN.md). Comments only;
+// compiled only with the build tag "verif".
+
+package management
+
+// C16: "verifies against the key set published on the management JWKS endpoint, also while key
+// stores are being reloaded": every request to the endpoint asks the registry for the keys published
+// at that moment and marshals exactly that answer - nothing is kept from an earlier request
+// (ghost log rkeys = keyholder.Registry.Keys).
+//@ func (*handler).jwks
+//@   props C16
+//@   ensures rkeys.n == old(rkeys.n) + 1
+//@   callsites Marshal 1
+//@   assert at call Marshal#1@4644ba16.1: rkeys.n == old(rkeys.n) + 1 && typeIs(callarg0, jose.JSONWebKeySet) && unbox(callarg0, jose.JSONWebKeySet).Keys == rkeys.ret0[rkeys.n - 1]
